@@ -15,7 +15,7 @@
    * Theorems named `_partial` cover the fragment / rest on a hypothesis that is validated by the correspondence check.
    * The findings (`_refuted`) are replayed on the real formatter by checks/C14.py. *)
 From Coq Require Import String Ascii List Bool Arith.
-From Mimium Require Import Fmt.Model Fmt.Render Fmt.Breaks Fmt.Witness.
+From Mimium Require Import Fmt.Model Fmt.Render Fmt.Breaks Fmt.Emits Fmt.Witness.
 Import ListNotations.
 Local Open Scope string_scope.
 Local Open Scope list_scope.
@@ -33,6 +33,14 @@ Proof. exact any_layout_same_tokens. Qed.
 Theorem C14_emits_all_same_tokens : forall (ind : nat) (c : cst) (r : list atom),
   emits_all ind c -> In r (renderings (doc_of ind c)) -> words r = cst_words c.
 Proof. exact emits_all_same_tokens. Qed.
+
+(* The hypothesis is PROVED for every tree whose nodes are all printed by plain concatenation of their children (statements,
+   literals, identifiers, unary / call / parenthesised / field-access / index expressions, type annotations): every token is
+   emitted by emit_token_with_trivia, which emits the text and every comment of the trivia.  (For the nodes with a printing
+   state machine -- lists, blocks, if, lambda, let, records -- emits_all is false in general, see the findings below, and is
+   decided per program by the check.) *)
+Theorem C14_emits_all_concat_partial : forall (ind : nat) (c : cst), concat_only c = true -> emits_all ind c.
+Proof. exact emits_all_concat. Qed.
 
 (* If no optional break point of the document lies between a token that can end an expression and a following postfix
    opener `(` `[` `.` (safe_breaks), then all renderings show the parser the same line-break flags at every position where
@@ -110,6 +118,13 @@ Theorem C14_one_element_tuple_refuted :
   in_fragment c_tuple1 = true /\ all_renderings (doc_of 4 c_tuple1) (String.eqb "(a)") = true.
 Proof. exact tuple1_comma_lost. Qed.
 
+(* "if (a) x = 1 else y": the document lacks the tokens `=` and `1` (emits_all fails): every rendering is `if(a) x else y` *)
+Theorem C14_if_branch_assignment_refuted :
+  in_fragment c_if_assign = true /\
+  cst_words c_if_assign = ["if"; "("; "a"; ")"; "x"; "="; "1"; "else"; "y"] /\
+  dwords (doc_of 4 c_if_assign) = ["if"; "("; "a"; ")"; "x"; "else"; "y"].
+Proof. exact if_assign_dropped. Qed.
+
 (* ---- the hypotheses of the positive theorems are satisfiable: "fn f(a, b){ let x = g(a, b) + 1 // sum\n  x |> h }" ---- *)
 Example C14_ex_in_fragment : in_fragment c_ok = true.
 Proof. exact ok_in_fragment. Qed.
@@ -117,5 +132,7 @@ Example C14_ex_safe_breaks : safe_breaks (doc_of 4 c_ok) = true.
 Proof. exact ok_safe. Qed.
 Example C14_ex_emits_all : emits_all 4 c_ok.
 Proof. exact ok_emits_all. Qed.
+Example C14_ex_concat_only : concat_only c_concat = true /\ cst_words c_concat = ["-"; "a"; "."; "b"; "/* c */"].
+Proof. exact c_concat_ok. Qed.
 Example C14_ex_has_renderings : renderings (doc_of 4 c_ok) <> [].
 Proof. exact ok_has_renderings. Qed.
